@@ -77,7 +77,7 @@ class TlcResult:
 
 
 def run_tlc(module, cfg, workdir_name, workers=8, timeout=1500, env=None, out_file=None, simulate=None,
-            extra=None, coverage=True, heap="8g", dfs=False):
+            extra=None, coverage=True, heap="8g", dfs=False, expect_failure=False):
     """Run TLC on spec/<module>.tla with spec/<cfg>. Returns TlcResult; raises ToolError on tool failure."""
     meta = os.path.join(BUILD, "tlc", workdir_name)
     shutil.rmtree(meta, ignore_errors=True)
@@ -140,7 +140,7 @@ def run_tlc(module, cfg, workdir_name, workers=8, timeout=1500, env=None, out_fi
     r.ok = completed or (simulate is not None and p.returncode == 0)
     r.returncode = p.returncode
     r.errors = errors
-    if not r.ok and r.invariant_violated is None:
+    if not r.ok and r.invariant_violated is None and not expect_failure:
         raise ToolError(f"TLC failed on {module}/{cfg}:\n" + "\n".join(errors) + "\n" + r.output[-3000:])
     return r
 
